@@ -90,6 +90,17 @@ template <class X> void run(Ctx& c, uint64_t idx) {
 }
 
 static void run_case(Ctx& c, uint64_t idx) { run<ApiA>(c, idx); run<ApiW>(c, idx); }
-static Monitor mon = {"tostring", "C05: recomposition into buffers of every capacity, canaries and fences", "C05", ncases, run_case, nullptr};
+template <class X> void fuzz_x(Ctx& c, unsigned f, const Str& s) {
+    UriBox<X> b; if (b.parse(s) != URI_SUCCESS || !b.faithful()) return;
+    Str origin = "parsed";
+    if (f & 4) { if (b.make_owner() == URI_SUCCESS) { origin = "parsed+owned"; b.srcText.clear(); } }
+    else if (f & 8) { if (b.normalize(f >> 4) == URI_SUCCESS) { origin = "normalized"; b.srcText.clear(); } }
+    one<X>(c, b, origin + "(" + esc(s) + ")");
+}
+static void fuzz_one(Ctx& c, const unsigned char* d, size_t n) {
+    if (n < 1) return; if (n > 200) n = 200; unsigned f = d[0]; Str s((const char*)d + 1, n - 1);
+    if (f & 1) fuzz_x<ApiW>(c, f, s); else fuzz_x<ApiA>(c, f, s);
+}
+static Monitor mon = {"tostring", "C05: recomposition into buffers of every capacity, canaries and fences", "C05", ncases, run_case, nullptr, fuzz_one};
 VF_REGISTER(mon);
 }
